@@ -1565,7 +1565,7 @@ fn read_subframes<R: BitRead>(
 
                     left.iter().zip(side_i64).zip(side.iter_mut()).for_each(
                         |((left, side_i64), side)| {
-                            *side = (*left as i64 - side_i64) as i32;
+                            *side = (*left as i64).wrapping_sub(side_i64) as i32;
                         },
                     );
                 }
@@ -1602,7 +1602,7 @@ fn read_subframes<R: BitRead>(
 
                     side.iter_mut().zip(side_i64).zip(right.iter()).for_each(
                         |((side, side_64), right)| {
-                            *side = (side_64 + *right as i64) as i32;
+                            *side = side_64.wrapping_add(*right as i64) as i32;
                         },
                     );
                 }
@@ -1641,9 +1641,9 @@ fn read_subframes<R: BitRead>(
 
                     mid.iter_mut().zip(side.iter_mut()).zip(side_i64).for_each(
                         |((mid, side), side_i64)| {
-                            let sum = *mid as i64 * 2 + (side_i64.abs() % 2);
-                            *mid = ((sum + side_i64) >> 1) as i32;
-                            *side = ((sum - side_i64) >> 1) as i32;
+                            let sum = *mid as i64 * 2 + (side_i64.wrapping_abs() % 2);
+                            *mid = (sum.wrapping_add(side_i64) >> 1) as i32;
+                            *side = (sum.wrapping_sub(side_i64) >> 1) as i32;
                         },
                     );
                 }
